@@ -896,7 +896,7 @@ loop:
 			// a HEADERS frame half-closes the stream while the header block is
 			// still arriving in CONTINUATION frames, and dispatching there
 			// hands the handler a request whose headers are half decoded.
-			if strm.State() == StreamStateHalfClosed && strm.headersFinished && !strm.responded {
+			if strm.State() == StreamStateHalfClosed && strm.headersFinished && !strm.trailerBlock && !strm.responded {
 				strm.responded = true
 
 				// The declared content-length must match the number of DATA
@@ -1128,6 +1128,8 @@ func (sc *serverConn) handleFrame(strm *Stream, fr *FrameHeader) error {
 		}
 
 		if fr.Flags().Has(FlagEndHeaders) {
+			strm.trailerBlock = false
+
 			// headers are only finished if there's no previousHeaderBytes
 			strm.headersFinished = len(strm.previousHeaderBytes) == 0
 			if !strm.headersFinished {
@@ -1194,12 +1196,21 @@ func (sc *serverConn) handleFrame(strm *Stream, fr *FrameHeader) error {
 
 func (sc *serverConn) handleHeaderFrame(strm *Stream, fr *FrameHeader) error {
 	// A second header block on a stream whose request headers are already done
-	// is a trailer, which must carry both END_STREAM and END_HEADERS. Its
+	// is a trailer, whose HEADERS frame must carry END_STREAM. Its
 	// fields join the request headers, which is the nearest thing fasthttp's
 	// request has to a place for them.
 	// https://httpwg.org/specs/rfc7540.html#rfc.section.8.1
-	if strm.headersFinished && !fr.Flags().Has(FlagEndStream|FlagEndHeaders) {
-		return NewGoAwayError(ProtocolError, "stream not open")
+	//
+	// END_HEADERS may just as well come on a CONTINUATION frame, as it may for
+	// the request block: only the HEADERS frame that starts the trailers is
+	// held to END_STREAM, and the block is marked as still arriving so that the
+	// request is not dispatched before its last field is in.
+	if strm.headersFinished && fr.Type() == FrameHeaders {
+		if !fr.Flags().Has(FlagEndStream) {
+			return NewGoAwayError(ProtocolError, "stream not open")
+		}
+
+		strm.trailerBlock = !fr.Flags().Has(FlagEndHeaders)
 	}
 
 	if headerFrame, ok := fr.Body().(*Headers); ok && headerFrame.Stream() == strm.ID() {
